@@ -71,9 +71,15 @@ def unique_ids(ctx, o):
         x, t = incs[0]
         owner = isinstance(t.value, ast.Name) and t.value.id == 'Asset'
         N = Normalizer(P, A)
-        newv = N.norm(ast.BinOp(left=ast.Attribute(value=t.value, attr=t.attr, ctx=ast.Load()), op=x.op, right=x.value) if isinstance(x, ast.AugAssign) else x.value, {})
+        from ..norm import single_defs
+        defs = single_defs(init)
+        newv = N.norm(ast.BinOp(left=ast.Attribute(value=t.value, attr=t.attr, ctx=ast.Load()), op=x.op, right=x.value) if isinstance(x, ast.AugAssign) else x.value, defs)
         step = any(k.endswith('_id_counter') and v == 1 for k, v in newv.terms.items()) and newv.const == 1 and len(newv.terms) == 1
-        src = isinstance(ids[0], ast.Assign) and ast.unparse(ids[0].value) == 'Asset._id_counter' and ids[0].lineno > x.lineno
+        # the id is the new counter value: read back after the increment, or the local `counter + 1` that was also stored into the counter
+        idv = N.norm(ids[0].value, defs) if isinstance(ids[0], ast.Assign) else None
+        src = isinstance(ids[0], ast.Assign) and ((ast.unparse(ids[0].value) == 'Asset._id_counter' and ids[0].lineno > x.lineno)
+                                                   or (isinstance(ids[0].value, ast.Name) and idv is not None and idv.key() == newv.key()
+                                                       and isinstance(x, ast.Assign) and isinstance(x.value, ast.Name) and x.value.id == ids[0].value.id))
         ok = owner and step and src
     if not ok:
         o.fail(P, 'Asset.__init__', 'Asset._id_counter += 1; self._id = Asset._id_counter',
@@ -334,7 +340,7 @@ def check(ctx):
         elif aid != '-1':
             o.fail(P, s.ctx, s.node, 'an event that belongs to no device must be scheduled under id -1', file=s.mod.path, line=s.line)
     o.stats = {'sites_in_asset_subclasses': nasset}
-    o.require(nasset >= 8, f'only {nasset} schedule_event sites found in Asset subclasses (expected >= 8)')
+    o.require(nasset >= 6, f'only {nasset} schedule_event sites found in Asset subclasses (expected >= 6)')
     idp = P.lookup_prop(Asset, 'id', 'get')
     o.count()
     if not idp or ast.unparse(idp[1].body[-1]) != 'return self._id':
